@@ -15,7 +15,7 @@ pub fn def() -> CheckDef {
         meta: CheckMeta {
             id: "C10",
             level: "exploration",
-            rule: "seeded long stationary workloads (quick 800, thorough 4000 transactions each) over a bounded key set: (0) fixed-size overwrite, (1) variable-size overwrite/delete with values from 10 bytes to 4 pages, (2) bucket create/fill/delete cycles; variants: reopen every 25 transactions, 10% rollbacks, and a reader pinned for the stretch [N/3, N/2) (file pre-sized, as in C03). After every commit the independent parser measures live_t (reachable + free-list page run), dirty_t (pages in use now that were not in use before the commit) and the high-water mark H_t. Oracles: (i) without a pinned reader H_end <= 4*(max live + 2*max dirty) + 16 (fixed-size workload: max live + 3*max dirty + 8); (ii) with a pinned reader its dump stays equal to its snapshot at every 10th step, and H_end <= H_at_close + 2*max dirty + 8; (iii) the same across reopen; every commit also passes exact page accounting and matches the model. Non-trivial = run of >= 300 commits whose cumulative dirty pages exceed 10x the bound. Distinct = (workload, variant, seed).",
+            rule: "seeded long stationary workloads (quick 800, thorough 4000 transactions each) over a bounded key set: (0) fixed-size overwrite, (1) variable-size overwrite/delete with values from 10 bytes to 4 pages, (2) bucket create/fill/delete cycles; variants: reopen every 25 transactions, 10% rollbacks, a reader pinned for the stretch [N/3, N/2) (file pre-sized, as in C03), and rolling young readers (a fresh reader open at the moment every writer begins and closed before its commit; or a reader opened after each commit and held across the whole next write transaction) which never need old pages. After every commit the independent parser measures live_t (reachable + free-list page run), dirty_t (pages in use now that were not in use before the commit) and the high-water mark H_t. Oracles: (i) without a pinned reader H_end <= 4*(max live + 2*max dirty) + 16 (fixed-size workload: max live + 3*max dirty + 8); (ii) with a pinned reader its dump stays equal to its snapshot at every 10th step, and H_end <= H_at_close + 2*max dirty + 8; (iii) the same across reopen; every commit also passes exact page accounting and matches the model. Non-trivial = run of >= 300 commits whose cumulative dirty pages exceed 10x the bound. Distinct = (workload, variant, seed).",
             assumptions: &[
                 "bounds are relative to live and dirty pages measured on the same run, so a different fill factor or allocation policy that still reuses space stays within them",
                 "calibrated on the unchanged tree: H plateaus well inside the bound, a free list that never releases pages exceeds it within a few hundred transactions",
@@ -32,6 +32,10 @@ pub struct C10Case {
     pub reopen_every: u32,
     pub rollbacks: bool,
     pub pinned_reader: bool,
+    /// 0 none; 1 a fresh reader is open at the moment every writer begins (closed right after);
+    /// 2 a reader opened after each commit is held across the whole next write transaction
+    #[serde(default)]
+    pub rolling: u8,
     pub seed: u64,
     pub ntx: u32,
 }
@@ -99,7 +103,7 @@ fn gen_tx(case: &C10Case, rng: &mut Rng, i: u32, model: &MBucket) -> Vec<Op> {
 
 pub fn run_case(case: &C10Case, path: &std::path::Path, st: &mut C10Stats) -> Result<(), Failure> {
     let _ = std::fs::remove_file(path);
-    let num_pages = if case.pinned_reader { 40000 } else { 32 };
+    let num_pages = if case.pinned_reader || case.rolling == 2 { 40000 } else { 32 };
     let cfg = Cfg { pagesize: 1024, num_pages, strict: false, populate: false };
     let mut opts = RunOpts::standard(path.to_path_buf());
     opts.fsck_after_commit = false;
@@ -146,13 +150,41 @@ pub fn run_case(case: &C10Case, path: &std::path::Path, st: &mut C10Stats) -> Re
                 } else {
                     None
                 };
+                // rolling readers: young snapshots only, they never need old pages
+                let mut held: Option<(jammdb::Tx, MBucket)> = None;
                 while i < seg_end {
                     let ops = gen_tx(case, &mut rng, i, &model);
                     let commit = !(case.rollbacks && rng.chance(1, 10));
                     let spec = TxSpec { kind: if commit { TxKind::Commit } else { TxKind::Rollback }, ops };
                     let mut work = model.clone();
                     let mut at = None;
-                    let committed = run_tx(&db, &spec, false, &mut work, &opts, &mut cs, &mut at, None).map_err(|f| f.at(i as usize, at))?;
+                    let committed = if case.rolling == 1 {
+                        // a reader is open exactly while the writer begins
+                        let r = std::cell::RefCell::new(Some(db.tx(false).map_err(|e| Failure::new("tx_err", e.to_string()))?));
+                        let mut first = true;
+                        let mut hook = |_: &mut TxCtx, _: &MBucket| -> Result<(), Failure> {
+                            if first {
+                                first = false;
+                                r.borrow_mut().take();
+                            }
+                            Ok(())
+                        };
+                        // the hook runs after the ops (before commit): the reader is closed before the commit
+                        let c = run_tx(&db, &spec, false, &mut work, &opts, &mut cs, &mut at, Some(&mut hook)).map_err(|f| f.at(i as usize, at))?;
+                        c
+                    } else {
+                        run_tx(&db, &spec, false, &mut work, &opts, &mut cs, &mut at, None).map_err(|f| f.at(i as usize, at))?
+                    };
+                    if case.rolling == 2 {
+                        // the reader opened after the previous commit saw this whole transaction; check and replace it
+                        if let Some((rtx, snap)) = held.take() {
+                            if i % 16 == 0 {
+                                let d = dump_tx(&rtx).map_err(|s| Failure::new("dump", format!("rolling reader at tx {}: {}", i, s)))?;
+                                compare_dump(&snap, &d, &format!("rolling reader at tx {}", i))?;
+                            }
+                            drop(rtx);
+                        }
+                    }
                     if committed {
                         model = work;
                         st.commits += 1;
@@ -198,6 +230,10 @@ pub fn run_case(case: &C10Case, path: &std::path::Path, st: &mut C10Stats) -> Re
                         }
                     } else {
                         st.rollbacks += 1;
+                    }
+                    if case.rolling == 2 && i + 1 < seg_end {
+                        let m2 = if committed { work_after(&model) } else { model.clone() };
+                        held = Some((db.tx(false).map_err(|e| Failure::new("tx_err", e.to_string()))?, m2));
                     }
                     if let Some((rtx, snap)) = &reader {
                         if i % 10 == 0 || i + 1 == seg_end {
@@ -250,6 +286,10 @@ pub fn run_case(case: &C10Case, path: &std::path::Path, st: &mut C10Stats) -> Re
     }
 }
 
+fn work_after(m: &MBucket) -> MBucket {
+    m.clone()
+}
+
 pub fn read_prefix(path: &std::path::Path, ps: u64) -> Result<Vec<u8>, Failure> {
     use std::io::Read;
     let mut f = std::fs::File::open(path).map_err(|e| Failure::new("io", e.to_string()))?;
@@ -274,7 +314,8 @@ pub fn plan(ctx: &ShardCtx) -> Vec<C10Case> {
             workload: (idx % 3) as u8,
             reopen_every: if (idx / 3) % 2 == 1 { 25 } else { 0 },
             rollbacks: (idx / 6) % 2 == 1,
-            pinned_reader: (idx / 12) % 2 == 1 || idx % 7 == 3,
+            pinned_reader: ((idx / 12) % 2 == 1 || idx % 7 == 3) && idx % 5 != 1 && idx % 5 != 4,
+            rolling: if idx % 5 == 1 { 1 } else if idx % 5 == 4 { 2 } else { 0 },
             seed,
             ntx,
         });
@@ -302,6 +343,12 @@ fn shard(ctx: &ShardCtx, known: &Known) -> ShardOut {
         }
         if case.pinned_reader {
             classes.push("pinned reader".into());
+        }
+        if case.rolling == 1 {
+            classes.push("rolling readers: one open whenever a writer begins".into());
+        }
+        if case.rolling == 2 {
+            classes.push("rolling readers: each held across one write transaction".into());
         }
         out.extra.entry("runs".into()).or_insert_with(|| serde_json::json!([]));
         if let Some(serde_json::Value::Array(a)) = out.extra.get_mut("runs") {
